@@ -42,20 +42,24 @@ let dispatch (fields : string list) : string =
       field_of_text (strip_right (rewrite (nat_of_int (List.length s + 1)) t s))
   | "chain" :: segs ->
       (* spec oracle for a text made of segments: b:<text> rewritten under the current vocabulary,
-         d:<name>:<value> a definition (adds to the vocabulary, emits nothing), v:<text> a closed string
-         or comment (verbatim). Result: the stripped concatenation. *)
+         d:<name>:<value>:<text> a definition written as <text> (adds to the vocabulary; the text is removed, its
+         line breaks stay: definition_residue), m:<text> the text a malformed definition reads over (removed, its line
+         breaks stay, the vocabulary is unchanged), v:<text> a closed string or comment (verbatim).
+         Result: the stripped concatenation. *)
       let step (t, acc) seg =
         match String.split_on_char ':' seg with
         | ["b"; s] ->
             let s = text_of_field s in
             if List.exists is_special s then raise (Bad "SPECIAL") else
             (t, acc @ rewrite (nat_of_int (List.length s + 1)) t s)
-        | ["d"; n; v] -> (define (text_of_field n) (text_of_field v) t, acc)
+        | ["d"; n; v; txt] -> (define (text_of_field n) (text_of_field v) t, acc @ definition_residue (text_of_field txt))
+        | ["m"; txt] -> (t, acc @ definition_residue (text_of_field txt))
         | ["v"; s] -> (t, acc @ text_of_field s)
         | _ -> raise (Bad ("seg:" ^ seg)) in
       let (_, out) = List.fold_left step (sutoton_table, []) segs in
       field_of_text (strip_right out)
   | ["width_map"; c] -> string_of_z (width_map (z_of_string c))
+  | ["residue"; s] -> field_of_text (definition_residue (text_of_field s))   (* what a removed definition leaves *)
   | ["strip"; s] -> field_of_text (strip_right (text_of_field s))   (* what convert does to its result: trim_end *)
   | k :: _ -> "UNKNOWN-KIND:" ^ k
   | [] -> "EMPTY"
